@@ -59,3 +59,49 @@ Proof.
   destruct Hc as [ -> | [ -> | -> ] ]; lazy beta iota zeta;
     (destruct (index_byte _ _) as [[|k]|]; try discriminate; destruct (sindex _ _); discriminate).
 Qed.
+
+(* ---- set_of_ids: strictly increasing, hence duplicate-free ------------------------------------- *)
+From Coq Require Import Sorting.Sorted.
+
+Lemma insert_sortedN_In x y l : In y (insert_sortedN x l) <-> y = x \/ In y l.
+Proof.
+  induction l as [|z l IH]; cbn [insert_sortedN].
+  - cbn. intuition.
+  - destruct (x <? z)%N; [cbn; intuition|]. destruct (x =? z)%N eqn:E.
+    + apply N.eqb_eq in E. subst z. cbn. intuition.
+    + cbn. rewrite IH. intuition.
+Qed.
+
+Lemma insert_sortedN_sorted x l : StronglySorted N.lt l -> StronglySorted N.lt (insert_sortedN x l).
+Proof.
+  induction l as [|z l IH]; intros Hs; cbn [insert_sortedN].
+  - constructor; constructor.
+  - inversion Hs as [|? ? Hs' Hall]; subst.
+    destruct (x <? z)%N eqn:E1.
+    + apply N.ltb_lt in E1. constructor; [exact Hs|]. constructor; [exact E1|].
+      eapply Forall_impl; [|exact Hall]. intros a Ha. lia.
+    + destruct (x =? z)%N eqn:E2; [exact Hs|].
+      apply N.ltb_ge in E1. apply N.eqb_neq in E2. constructor; [now apply IH|].
+      apply Forall_forall. intros a Ha. apply insert_sortedN_In in Ha. destruct Ha as [->|Ha]; [lia|].
+      rewrite Forall_forall in Hall. now apply Hall.
+Qed.
+
+Lemma set_of_ids_sorted l : StronglySorted N.lt (set_of_ids l).
+Proof.
+  unfold set_of_ids. induction l as [|x l IH]; cbn [fold_right]; [constructor|]. now apply insert_sortedN_sorted.
+Qed.
+
+Lemma sorted_lt_NoDup l : StronglySorted N.lt l -> NoDup l.
+Proof.
+  induction 1 as [|a l Hs IH Hall]; constructor; [|exact IH].
+  intros Hin. rewrite Forall_forall in Hall. specialize (Hall a Hin). lia.
+Qed.
+
+Lemma set_of_ids_NoDup l : NoDup (set_of_ids l).
+Proof. apply sorted_lt_NoDup, set_of_ids_sorted. Qed.
+
+Lemma set_of_ids_In y l : In y (set_of_ids l) <-> In y l.
+Proof.
+  unfold set_of_ids. induction l as [|x l IH]; cbn [fold_right]; [reflexivity|].
+  rewrite insert_sortedN_In, IH. cbn. intuition.
+Qed.
